@@ -38,7 +38,7 @@ Proof.
   assert (K : forall d' stk' l', paired stk' (flat_map (recs thr gd d') kids ++ l') = paired stk' l').
   { intros d' stk' l'. induction IH as [|k r Hk _ IHr]; [reflexivity|]. cbn [flat_map].
     rewrite <- app_assoc, Hk. exact IHr. }
-  destruct ((thr <? t1 - t0) || negb (is_nil (flat_map (recs thr gd (d + 1)) kids))); [|reflexivity].
+  destruct ((thr <=? t1 - t0) || negb (is_nil (flat_map (recs thr gd (d + 1)) kids))); [|reflexivity].
   cbn [app paired r_type r_addr]. rewrite <- app_assoc, K. cbn [app paired r_type r_addr].
   rewrite N.eqb_refl. reflexivity.
 Qed.
